@@ -219,8 +219,33 @@ def c10(prog, obs, impl):
                 dv = obj.get_volumes()
                 if not numpy.array_equal(numpy.asarray(dv), numpy.asarray(vols)):
                     fails.append((i, f"Plate.get_volumes() without a unit reports {numpy.asarray(dv).flatten()[:4]}, with unit='uL' (the configured display unit) {numpy.asarray(vols).flatten()[:4]}"))
+                # every unit spelling of the array observers (default precision: 3 decimals), and the plate's total volume
+                for unit, scale in (('mL', F(1, 1000)), ('L', F(1, 10**6))):
+                    vu = obj.get_volumes(unit=unit)
+                    for c, x in zip(ds, numpy.asarray(vu).flatten()):
+                        if abs(F(float(x)) - c['vol'] * scale) > F(51, 100000) + abs(c['vol'] * scale) * F(1, 10**9):
+                            fails.append((i, f"Plate.get_volumes(unit={unit!r}) reports {x} for a well holding {float(c['vol'] * scale)!r} {unit}"))
+                    tot = sum((c['vol'] for c in ds), F(0)) * scale
+                    gt = obj.get_volume(unit)
+                    if abs(F(float(gt)) - tot) > F(51, 100000) * len(ds) + abs(tot) * F(1, 10**9):
+                        fails.append((i, f"Plate.get_volume({unit!r}) = {gt!r}, the wells hold {float(tot)!r} {unit} together"))
+                sl0 = obj[1, :]
+                for unit, scale in (('mL', F(1, 1000)), ('L', F(1, 10**6))):
+                    vu = sl0.get_volumes(unit=unit)
+                    for c, x in zip(ds[:obj.n_columns], numpy.asarray(vu).flatten()):
+                        if abs(F(float(x)) - c['vol'] * scale) > F(51, 100000) + abs(c['vol'] * scale) * F(1, 10**9):
+                            fails.append((i, f"get_volumes(unit={unit!r}) of the first row reports {x} for a well holding {float(c['vol'] * scale)!r} {unit}"))
                 sset = obj.get_substances()
                 exp = {s for c in ds for s in c['cont']}
+                # several substances at once: the sum of the moles of the non-enzymes among them
+                some = sorted(exp)[:3]
+                if len(some) >= 2:
+                    for unit, scale, prec in (('umol', F(1), 1), ('mmol', F(1, 1000), 3)):
+                        lm = obj.get_moles([impl.subs[s] for s in some], unit=unit)
+                        for c, x in zip(ds, numpy.asarray(lm).flatten()):
+                            e = sum((c['cont'].get(s, F(0)) for s in some if [q for q in subs if q['id'] == s][0]['kind'] != 'Enzyme'), F(0)) * scale
+                            if abs(F(float(x)) - e) > F(10) ** (-prec) * F(51, 100) + abs(e) * F(1, 10**9):
+                                fails.append((i, f"Plate.get_moles({some}, unit={unit!r}) reports {x}, the well holds {float(e)!r} {unit} of them together"))
                 if {impl.byname[s.name] for s in sset} != exp:
                     fails.append((i, "Plate.get_substances differs from the union of the wells' contents"))
                 for sid in list(exp)[:2]:
@@ -264,6 +289,20 @@ def c10(prog, obs, impl):
                             e = c['cont'].get(sid, F(0))
                             if abs(F(float(x)) - e) > F(6, 100):
                                 fails.append((i, f"get_moles of slice {dsl.py_selector(r)} reports {x} umol of substance {sid}, well holds {float(e)!r}"))
+    # at the end of the history every value ever returned is still consistent: its volume is the volume of what it holds now
+    # (a later operation on a value derived from it must not have reached into it)
+    if impl is not None:
+        for i, op, o, dumps in walk(prog, obs):
+            if not o['ok']:
+                continue
+            for v, d in o['out']:
+                obj = impl.env.get(v)
+                if obj is None:
+                    continue
+                for c in containers_of(impl.dump(obj)):
+                    expect = measure(subs, c, 'L') * 10**6
+                    if not close(c['vol'], expect, F(1, 10**8) * k * (len(obs) + 1), F(1, 10**9)):
+                        fails.append((i, f"at the end of the history the value returned by op {i} has the cached volume {float(c['vol'])!r} uL but its contents occupy {float(expect)!r} uL"))
     return fails
 
 
